@@ -349,7 +349,9 @@ def materialize(t, root, rng=None, order=None, top=None):
 
 
 ELIG_NAMES = ['A.sol', 'b.sol', 'Token.sol', 'Vault.sol', 'lib.sol', '.sol', 't.sol', 'tsol.sol', 'a b.sol', 'Ünï.sol',
-              'K.sol', 'ΑΣ.sol', 'x_t_sol.bak.sol', 'a.tsol.sol', 'a.t.so.sol', 'UP.SOL.sol', '合约.sol']
+              'K.sol', 'ΑΣ.sol', 'x_t_sol.bak.sol', 'a.tsol.sol', 'a.t.so.sol', 'UP.SOL.sol', '合约.sol',
+              'Deploy.s.sol', 'Upgrade.S.sol', 'x.s.sol.sol', 'a.test.sol', 'a.spec.sol', 'Mock.sol', 'a.script.sol', 'I.d.sol', 'T.sol', 'test.sol',
+              'a.sol.sol', '..sol', 'a..sol', '-.sol', '~a.sol', '#a.sol', 'a.t..sol']
 INERT_NAMES = ['README.md', 'a.t.sol', 'A.T.SOL', 'a.T.sol', 'a.t.Sol', 'x.sol.bak', 'bin.dat', 'sol', 'a.SOL', 'a.Sol', 'x.tsol',
                'my.t.solx', '测试.t.sol', 'İ.T.SOL', 'empty.txt', 'Makefile', '.t.sol', 'a.sol ', 'a.sol.', 'asol', '.gitignore',
                'Token.t.sol', 'TOKEN.T.sol', 'é.T.Sol']
